@@ -26,14 +26,15 @@ import (
 	"verif/gen"
 	"verif/harness/lalclient"
 	"verif/ref/rtpref"
+	"verif/ref/rtspref"
 	"verif/ref/tsref"
 )
 
 type published struct {
 	codecs gen.Codecs
-	nals   [][]byte          // every NAL unit of every published video item, in publication order
+	nals   [][]byte           // every NAL unit of every published video item, in publication order
 	nalIdx map[[32]byte][]int // hash -> positions in nals
-	audio  [][]byte          // raw audio frames in publication order
+	audio  [][]byte           // raw audio frames in publication order
 	audIdx map[[32]byte][]int
 }
 
@@ -117,6 +118,11 @@ func checkTsContent(who string, p *published, res *tsref.Result) *pbt.Violation 
 	}
 	vc := &cursor{idx: p.nalIdx, cur: -1}
 	ac := &cursor{idx: p.audIdx, cur: -1}
+	tsUnits, tsAudio := 0, 0
+	defer func() {
+		pbt.Count("content/ts-slice-nals-matched", tsUnits)
+		pbt.Count("content/ts-aac-frames-matched", tsAudio)
+	}()
 	for n, pes := range res.PES {
 		switch int(pes.PID) {
 		case vpid:
@@ -124,6 +130,7 @@ func checkTsContent(who string, p *published, res *tsref.Result) *pbt.Violation 
 				if !isVCL(p.codecs.Video, nal) {
 					continue
 				}
+				tsUnits++
 				if why := vc.next(nal); why != "" {
 					return pbt.V("S3/unit-altered/ts", "%s: PES %d (pts %d) carries the coded-slice NAL unit %s, which is %s (no published NAL unit, or one that arrived before: last accepted position %d)", who, n, pes.PTS, head(nal), why, vc.cur)
 				}
@@ -142,6 +149,7 @@ func checkTsContent(who string, p *published, res *tsref.Result) *pbt.Violation 
 				if fl < hl || fl > len(b) {
 					return pbt.V("S3/unit-altered/ts", "%s: audio PES %d (pts %d): ADTS frame length %d at offset %d of %d", who, n, pes.PTS, fl, len(pes.Payload)-len(b), len(pes.Payload))
 				}
+				tsAudio++
 				if why := ac.next(b[hl:fl]); why != "" {
 					return pbt.V("S3/unit-altered/ts", "%s: audio PES %d (pts %d) carries the AAC frame %s, which is %s", who, n, pes.PTS, head(b[hl:fl]), why)
 				}
@@ -166,7 +174,7 @@ func (p *published) partOfPublished(frag []byte, sameType func(nal []byte) bool)
 }
 
 // checkRtpContent judges the interleaved frames of one RTSP consumer (arrival order).
-func checkRtpContent(who string, p *published, frames []rtspFrame) *pbt.Violation {
+func checkRtpContent(who string, p *published, frames []rtspref.Frame) *pbt.Violation {
 	type chanState struct {
 		seen bool
 		seq  uint16
@@ -181,10 +189,18 @@ func checkRtpContent(who string, p *published, frames []rtspFrame) *pbt.Violatio
 		nal     []byte
 		nextSeq uint16
 	}
+	wholeUnits, fragUnits, fuWhole, aus := 0, 0, 0, 0
+	defer func() {
+		pbt.Count("content/rtp-whole-slice-nals-matched", wholeUnits)
+		pbt.Count("content/rtp-fu-runs-reassembled", fuWhole)
+		pbt.Count("content/rtp-orphan-fragments-matched", fragUnits)
+		pbt.Count("content/rtp-aac-units-matched", aus)
+	}()
 	whole := func(n int, nal []byte) *pbt.Violation {
 		if !isVCL(p.codecs.Video, nal) {
 			return nil
 		}
+		wholeUnits++
 		if why := vc.next(nal); why != "" {
 			return pbt.V("S3/unit-altered/rtsp", "%s: interleaved frame %d completes the coded-slice NAL unit %s, which is %s (last accepted position %d)", who, n, head(nal), why, vc.cur)
 		}
@@ -278,11 +294,13 @@ func checkRtpContent(who string, p *published, frames []rtspFrame) *pbt.Violatio
 				}
 				if fu.active && end {
 					fu.active = false
+					fuWhole++
 					if v := whole(n, fu.nal); v != nil {
 						return v
 					}
 				} else if !fu.active {
 					// a fragment of a unit whose other fragments were dropped: it is still a part of a published unit
+					fragUnits++
 					if !p.partOfPublished(frag, same) {
 						return pbt.V("S3/unit-altered/rtsp", "%s: interleaved frame %d carries the fragment %s of a NAL unit (start=%v end=%v), which is not a contiguous part of any published NAL unit of that type", who, n, head(frag), start, end)
 					}
@@ -307,6 +325,7 @@ func checkRtpContent(who string, p *published, frames []rtspFrame) *pbt.Violatio
 				if sz > len(data) {
 					break // fragmented access unit: not judged
 				}
+				aus++
 				if why := ac.next(data[:sz]); why != "" {
 					return pbt.V("S3/unit-altered/rtsp", "%s: interleaved frame %d carries the AAC access unit %s, which is %s", who, n, head(data[:sz]), why)
 				}
